@@ -208,6 +208,16 @@ func Lattice(full bool) []Def {
 			// positions are given relative to Greenwich; the central meridian of a
 			// definition with +pm is relative to that prime meridian
 			d.Pts = positions(pa.region, pa.lon0+o.pm)
+			if o.pm != 0 {
+				// keep longitudes relative to the prime meridian inside [-180, 180]
+				var keep [][2]float64
+				for _, p := range d.Pts {
+					if l := p[0] - o.pm; l >= -179.5 && l <= 179.5 {
+						keep = append(keep, p)
+					}
+				}
+				d.Pts = keep
+			}
 			out = append(out, d)
 		}
 	}
